@@ -583,12 +583,17 @@ def implsExact (S : Schema) : Bool :=
 
 /-- References have the kinds the Go types force (`ImplementedInterfaces []*InterfaceType`,
     `MemberTypes []*ObjectType`, root operation types `*ObjectType`). -/
+def SchemaDef.kindIs {ι : Type} (d : SchemaDef ι) (n : String) (k : Kind) : Bool :=
+  match d.lookup n with
+  | some t => t.kind == k
+  | none => false
+
 def kindsOk {ι : Type} (d : SchemaDef ι) : Bool :=
-  let kindIs := fun (n : String) (k : Kind) => match d.lookup n with
-    | some t => t.kind == k
-    | none => false
-  d.types.all (fun t => t.ifaces.all (fun i => kindIs i .interface) && t.members.all (fun m => kindIs m .object))
-  && (optList d.query ++ optList d.mutation ++ optList d.subscription).all (fun n => kindIs n .object)
+  d.types.all (fun t => t.ifaces.all (fun i => d.kindIs i .interface) && t.members.all (fun m => d.kindIs m .object))
+  && (optList d.query ++ optList d.mutation ++ optList d.subscription).all (fun n => d.kindIs n .object)
+  -- "schemas must define the query operation"; "… builtin may not be overridden"
+  && d.query.isSome
+  && d.types.all (fun t => !isBuiltin t.name || t.kind == .scalar)
   -- one record stands for six Go struct types: the parts a kind does not have are empty
   && d.types.all (fun t =>
       (t.kind == .object || t.kind == .interface || t.fields.isEmpty)
@@ -897,39 +902,45 @@ def rootOf (types : List (String × Kind)) (what : String) (n : String) : Except
   | some .object => .ok n
   | some _ => .error (what ++ " type is not an object")
 
+/-- The first loop of `GetSchemaDefinition`: the shell (kind) registered for a listed type. -/
+def tableEntry (t : TypeD) : Except String (String × Kind) :=
+  if isBuiltin t.name then .ok (t.name, Kind.scalar) else
+  match kindOfName t.kind with
+  | some k => .ok (t.name, k)
+  | none => .error ("unsupported type kind in types list: " ++ t.kind)
+
+/-- `MutationType` / `SubscriptionType` (optional roots). -/
+def optRoot (types : List (String × Kind)) (what : String) : Option String → Except String (Option String)
+  | some n => (rootOf types what n).map some
+  | none => .ok none
+
+/-- The rest of `GetSchemaDefinition` once the shells exist and the query root is named. -/
+def rebuildWith (types : List (String × Kind)) (x : IntroData) (q : String) : Except String GDef :=
+  match rootOf types "query" q, optRoot types "mutation" x.mutationType,
+        optRoot types "subcription" x.subscriptionType,
+        mapExcept (rebuildType types) x.types, mapExcept (rebuildDirective types) x.directives with
+  | .ok q, .ok m, .ok s, .ok ts, .ok ds =>
+    let additional := (ts.filter (fun t => t.kind == .object && !t.ifaces.isEmpty)).map (·.name)
+    .ok { types := ts, query := some q, mutation := m, subscription := s,
+          additionalId := if additional.isEmpty then none else alloc, additional := additional,
+          directivesId := alloc, directives := ds.foldl (mapInsert (·.name)) [] }
+  | .error e, _, _, _, _ => .error e
+  | _, .error e, _, _, _ => .error e
+  | _, _, .error e, _, _ => .error e
+  | _, _, _, .error e, _ => .error e
+  | _, _, _, _, .error e => .error e
+
 /-- **`GetSchemaDefinition`**. The model declines duplicate type names in the `types` list (the Go
     code then lets the later shell win and fills it twice; no introspection result of an accepted
-    schema has duplicates — `describe_each_once`). The result's table holds every listed type;
+    schema has duplicates — `describe_types_once`). The result's table holds every listed type;
     `AdditionalTypes` are the objects with at least one interface. -/
 def rebuild (x : IntroData) : Except String GDef :=
   if !nodupNames (x.types.map (·.name)) then .error "duplicate type name in the types list (outside the model)" else
-  match mapExcept (fun t => if isBuiltin t.name then .ok (t.name, Kind.scalar) else
-          match kindOfName t.kind with
-          | some k => .ok (t.name, k)
-          | none => .error ("unsupported type kind in types list: " ++ t.kind)) x.types with
+  match mapExcept tableEntry x.types with
   | .error e => .error e
   | .ok types =>
     match x.queryType with
     | none => .error "type not found: "
-    | some q =>
-      match rootOf types "query" q,
-            (match x.mutationType with
-             | some m => (rootOf types "mutation" m).map some
-             | none => .ok none),
-            (match x.subscriptionType with
-             | some s => (rootOf types "subcription" s).map some
-             | none => .ok none),
-            mapExcept (rebuildType types) x.types,
-            mapExcept (rebuildDirective types) x.directives with
-      | .ok q, .ok m, .ok s, .ok ts, .ok ds =>
-        let additional := (ts.filter (fun t => t.kind == .object && !t.ifaces.isEmpty)).map (·.name)
-        .ok { types := ts, query := some q, mutation := m, subscription := s,
-              additionalId := if additional.isEmpty then none else alloc, additional := additional,
-              directivesId := alloc, directives := ds.foldl (mapInsert (·.name)) [] }
-      | .error e, _, _, _, _ => .error e
-      | _, .error e, _, _, _ => .error e
-      | _, _, .error e, _, _ => .error e
-      | _, _, _, .error e, _ => .error e
-      | _, _, _, _, .error e => .error e
+    | some q => rebuildWith types x q
 
 end ApiFu.C10
